@@ -92,6 +92,10 @@ def canon_place(B, pl, depth=0):
             if len(projs) == 2:
                 return inner
             base, projs = inner, projs[2:]
+    if base[0] == 'call' and projs[:2] == ['as:Ok', '0']:
+        # `match f() { Ok(v) => .. }` takes the same payload as `f()?`
+        base = ('try', base)
+        projs = ['as:Continue', '0'] + projs[2:]
     if base[0] == 'try' and projs[:2] == ['as:Continue', '0']:
         base = ('payload', base[1])
         projs = projs[2:]
